@@ -10,7 +10,17 @@ use serde_json::{Value as J, json};
 fn proj(v: &blots_core::values::Value, s: &Session) -> J {
     match v {
         blots_core::values::Value::Lambda(_) => json!({"t":"fn"}),
-        _ => mv::project(v, &s.heap.borrow(), Lift::Id),
+        _ => strip_fns(mv::project(v, &s.heap.borrow(), Lift::Id)),
+    }
+}
+
+/// functions nested in lists / records are compared by kind, like the model's ProjV
+fn strip_fns(j: J) -> J {
+    match j {
+        J::Object(m) if m.get("t") == Some(&json!("fn")) => json!({"t":"fn"}),
+        J::Object(m) => J::Object(m.into_iter().map(|(k, v)| (k, strip_fns(v))).collect()),
+        J::Array(a) => J::Array(a.into_iter().map(strip_fns).collect()),
+        x => x,
     }
 }
 
